@@ -800,7 +800,18 @@ def _run(args: argparse.Namespace) -> int:
             print("run-space attempt must be >= 1", file=sys.stderr)
             return EXIT_CONFIG_ERROR
         try:
-            run_space_spec_dict = asdict(pipeline_cfg.run_space)
+            # Hash the declared run_space block (as `semantiva inspect` does) so that
+            # inspection and the trace report the same run_space_spec_id
+            declared_run_space = config.get("run_space")
+            if not isinstance(declared_run_space, dict) and isinstance(
+                config.get("pipeline"), dict
+            ):
+                declared_run_space = config["pipeline"].get("run_space")
+            run_space_spec_dict = (
+                dict(declared_run_space)
+                if isinstance(declared_run_space, dict)
+                else asdict(pipeline_cfg.run_space)
+            )
             base_dir = pipeline_cfg.base_dir or pipeline_path.parent
             identity_service = RunSpaceIdentityService()
             run_space_ids = identity_service.compute(
